@@ -106,12 +106,39 @@ func handlers(r *core.Run) []*ssa.Function {
 	return out
 }
 
-// paramNamed returns fn's parameter with one of the given names.
+// paramAliases: the spellings this code base (and a reasonable rename) uses
+// for the two string parameters every operation carries.
+var paramAliases = [][]string{
+	{"bucket", "bucketName", "bucketname", "bkt"},
+	{"object", "objectName", "key", "objectKey", "objectname"},
+}
+
+// paramNamed returns fn's parameter with one of the given names; a name that
+// belongs to an alias class (bucket / bucketName, object / objectName / key)
+// matches any spelling of its class when the exact name is absent.
 func paramNamed(fn *ssa.Function, names ...string) *ssa.Parameter {
 	for _, p := range fn.Params {
 		for _, n := range names {
 			if p.Name() == n {
 				return p
+			}
+		}
+	}
+	for _, n := range names {
+		for _, class := range paramAliases {
+			if !has(class, n) {
+				continue
+			}
+			var found *ssa.Parameter
+			cnt := 0
+			for _, p := range fn.Params {
+				if has(class, p.Name()) {
+					found = p
+					cnt++
+				}
+			}
+			if cnt == 1 {
+				return found
 			}
 		}
 	}
